@@ -39,6 +39,8 @@ func main() {
 		os.Exit(replayFile(os.Args[2]))
 	case "dump":
 		os.Exit(dump(os.Args[2:]))
+	case "bench":
+		os.Exit(bench(os.Args[2:]))
 	}
 	os.Exit(run(os.Args[1]))
 }
@@ -59,6 +61,7 @@ func cleanupShm() {
 
 type tierCfg struct {
 	Depth    int
+	CoreDepth int // histories of this length over the core alphabet only (0: none)
 	MaxBits  int
 	Masks    []int
 	HdrMasks []int
@@ -76,14 +79,19 @@ func allMasks() []int {
 func cfgFor(tier string) tierCfg {
 	if tier == "thorough" {
 		return tierCfg{Depth: 5, MaxBits: 12,
-			Masks:    []int{0x01, 0x02, 0x04, 0x08, 0x10, 0x20, 0x40, 0x80, 0xFF, 0x03, 0x06, 0x07, 0x0F, 0x55, 0xAA, 0x7F},
+			Masks:    []int{0x01, 0x02, 0x04, 0x08, 0x10, 0x20, 0x40, 0x80, 0xFF, 0x55, 0x03},
 			HdrMasks: allMasks(), Budget: 13 * time.Minute}
 	}
-	return tierCfg{Depth: 4, MaxBits: 10, Masks: []int{0x01, 0x80, 0xFF}, Budget: 75 * time.Second}
+	return tierCfg{Depth: 3, CoreDepth: 5, MaxBits: 10, Masks: []int{0x01, 0x80, 0xFF}, Budget: 75 * time.Second}
 }
 
+// core alphabet: one representative per kind of operation (quick tier, one level deeper)
+var coreShapes = map[string]bool{"a1": true, "a789": true, "a513": true, "a1100z": true, "hsC": true, "ow": true, "snap": true, "reopen": true}
+
 // enumerate all applicable histories of exactly length d (the model decides applicability).
-func enumHistories(d int) [][]int {
+func enumHistories(d int) [][]int { return enumHistoriesOver(d, nil) }
+
+func enumHistoriesOver(d int, only map[string]bool) [][]int {
 	var out [][]int
 	var rec func(m *hmodel, prefix []int)
 	rec = func(m *hmodel, prefix []int) {
@@ -92,7 +100,7 @@ func enumHistories(d int) [][]int {
 			return
 		}
 		for si := range shapes {
-			if !m.applicable(&shapes[si]) {
+			if !m.applicable(&shapes[si]) || (only != nil && !only[shapes[si].Name]) {
 				continue
 			}
 			c := m.clone()
@@ -253,6 +261,19 @@ func run(prop string) int {
 			tasks = append(tasks, tb)
 		}
 	}
+	coreN := 0
+	if cfg.CoreDepth > cfg.Depth {
+		for d := cfg.Depth + 1; d <= cfg.CoreDepth; d++ {
+			hs := enumHistoriesOver(d, coreShapes)
+			coreN += len(hs)
+			a.byDepth[100+d] = len(hs)
+			for _, h := range hs {
+				tb := mk(task{Kind: "crash", Seg: 2048, Ops: opNames(h), MaxBits: cfg.MaxBits})
+				taskDepth[string(tb)] = 100 + d
+				tasks = append(tasks, tb)
+			}
+		}
+	}
 	fmt.Fprintf(os.Stderr, "walmc: tier %s: %d long-history crash tasks, %d corruption tasks (%d bytes x masks), histories by depth %v\n",
 		tier, nLongTasks, len(phase1), corruptBytes, a.byDepth)
 	p.Map(tasks, handle)
@@ -336,7 +357,7 @@ func run(prop string) int {
 	cov := map[string]interface{}{
 		"evaluations":         a.res.Evals,
 		"distinct_nontrivial": a.res.Mixed + a.res.HitWritten,
-		"rule": "histories = every applicable sequence of length <= depth over the operation shapes (seg 2 KiB) + hand-shaped long histories (2 and 8 KiB segments), run on the real wal/snap code; " +
+		"rule": "histories = every applicable sequence of length <= depth over the 15 operation shapes (seg 2 KiB; quick: one level deeper over an 8-shape core alphabet, keys 100+d in histories_by_depth) + hand-shaped long histories (2 and 8 KiB segments), run on the real wal/snap code; " +
 			"crash images = at every Fsync/Fdatasync callback and API return, every per-sector choice between the content durable at the last completed sync of the file and the contents observed since (x namespace before/after, x size-follows-data / zero-filled), de-duplicated by content hash per history; " +
 			"corruption = every byte offset of every segment (written area + 64) and snapshot file of the long histories' final image x masks; one evaluation = one run of a real reader (OpenForRead, Verify, ValidSnapshotEntries, Open+ReadAll[+Repair], Load, LoadNewestAvailable, reopen after append). " +
 			"non-trivial = distinct crash images that differ from both the all-old and the all-new neighbour image (torn images) + corruption cases whose flipped byte lies in the written area",
@@ -346,6 +367,8 @@ func run(prop string) int {
 		"histories_by_depth":         intMap(a.byDepth),
 		"histories_done_by_depth":    intMap(a.doneDepth),
 		"history_depth_completed":    depthDone,
+		"core_alphabet_histories":    coreN,
+		"core_alphabet_depth":        cfg.CoreDepth,
 		"inapplicable_histories":     a.inapplic,
 		"long_histories":             len(longHists),
 		"long_history_segment_cuts":  longCuts,
@@ -510,5 +533,25 @@ func dump(args []string) int {
 		}
 	}
 	fmt.Println("self-check:", r.selfErr)
+	return 0
+}
+
+// bench: walmc bench <n> <op>...  (profiling aid)
+func bench(args []string) int {
+	n, _ := strconv.Atoi(args[0])
+	os.Setenv("WALMC_PARENT", "bench")
+	defer os.RemoveAll(workerScratch())
+	f, _ := os.Create("/verif/.build/walmc.prof")
+	pprofStart(f)
+	t0 := time.Now()
+	var res result
+	for i := 0; i < n; i++ {
+		res = result{Classes: map[string]int{}}
+		t := task{Kind: "crash", Seg: 2048, Ops: args[1:], MaxBits: 10}
+		doCrash(&t, &res, func() {})
+	}
+	pprofStop()
+	f.Close()
+	fmt.Printf("%d runs, %.2f ms/run, images %d evals %d points %d err %q\n", n, float64(time.Since(t0).Microseconds())/1000/float64(n), res.Images, res.Evals, res.Points, res.Err)
 	return 0
 }
